@@ -185,3 +185,144 @@ def run_parse_case(cls, lines, delim, conv='int'):
     elif G is not None and G.__class__.__name__ != cls:
         out['C09.parse_snapshots.class_selected_by_directed'] = G.__class__.__name__
     return out
+
+
+# ---- node_link_graph (C11 reader): the two record loops, on abstract JSON records (pyvc/linemodel.py) ------------------------------
+#
+# node_link_graph(data, directed, attrs)    data = {'directed': D, 'graph': A, 'nodes': [node records], 'links': [link records]}
+#   requires every node record to carry its id under attrs['id'];  link records carry source, target, time
+#   ensures  the result is a DynDiGraph iff D (the flag recorded in the data), else a DynGraph; its graph attributes are A
+#            per node record, in order: EXACTLY ONE call add_node(<its id>, **<its other attributes>)   (isolated and bare nodes included)
+#            per link record, in order: EXACTLY ONE call add_interaction(<source>, <target>, <time>), no vanishing time
+#            nothing else touches the graph: its state is the fold of these calls (kernel contract, C01), in list order
+#   The calls are observed, not executed; `graph.to_directed()` of the still empty graph is taken as an empty DynDiGraph (its verified contract).
+
+from pyvc.linemodel import RecWorld, VRecord          # noqa: E402
+
+T11 = ('C11',)
+
+
+class NodeLinkGraph(Contract):
+    props = T11
+    key = 'node_link::node_link_graph'
+
+    def __init__(self, flag, bound_n=None):
+        self.flag = flag                    # 'directed' / 'undirected': the flag recorded in the data
+
+    def uses(self, eng):
+        return [Init('DynGraph'), Init('DynDiGraph')]
+
+    def reads(self):
+        return [Init('DynGraph').key, Init('DynDiGraph').key]
+
+    def setup(self, ctx, variant):
+        w = RecWorld()
+        ctx.recworld = w
+        nn, nl = fresh('n_nodes', Int), fresh('n_links', Int)
+        nz, lz = fresh_fun('node_rec', Int, Obj), fresh_fun('link_rec', Int, Obj)
+        ctx.assume(z3.And(nn >= 0, nl >= 0))
+        gattr = VOpaque(fresh('graph_attrs', Obj), 'param')
+        data = VDictLit([(VStr('directed'), VBool(self.flag == 'directed')), (VStr('graph'), gattr),
+                         (VStr('nodes'), VSeq(nn, lambda k: VRecord(w, nz(k), 'node'), {'elem_kind': 'record'})),
+                         (VStr('links'), VSeq(nl, lambda k: VRecord(w, lz(k), 'link'), {'elem_kind': 'record'}))])
+        attrs = VDictLit([(VStr('id'), VStr('id')), (VStr('source'), VStr('source')), (VStr('target'), VStr('target'))])
+        c = Call(w=w, nz=nz, lz=lz, gattr=gattr, calls=[], converted=[], argv=[data, VBool(fresh('directed_arg', Bool)), attrs], kwv={})
+        ctx.nlg = c
+        eng = ctx.engine
+
+        def hook(interp, g, name, argv, kwv):
+            if name == 'to_directed':
+                if argv or kwv:
+                    raise Undecided('to_directed with arguments')
+                c.converted.append(g)
+                if c.calls:
+                    raise Undecided('to_directed after the graph was written')
+                return eng.construct(interp, 'DynDiGraph', [], {})
+            c.calls.append((name, g, list(argv), dict(kwv)))
+            return VNone
+        hook.names = {'add_interaction', 'add_node', 'to_directed'}
+        ctx.method_hook = hook
+        return c
+
+    def loop_specs(self):
+        def judge(L, which):
+            c = L.ctx.nlg
+            if L.assuming or z3.is_int_value(z3.simplify(L.k)):
+                return []
+            k = z3.simplify(L.k - 1)
+            w = c.w
+            calls = c.calls
+            if len(calls) != 1:
+                return [('exactly_one_call_per_%s_record' % which, z3.BoolVal(False))]
+            name, g, argv, kwv = calls[0]
+            if which == 'node':
+                rec = c.nz(k)
+                ok_name = name == 'add_node'
+                ok_id = z3.BoolVal(False) if not (argv and argv[0].kind == 'node') else argv[0].z == w.nid(rec)
+                rest = kwv.get('**')
+                ok_attrs = z3.BoolVal(False) if rest is None or rest.kind != 'opaque' else rest.z == w.attrs(rec)
+                return [('exactly_one_call_per_node_record', z3.BoolVal(True)), ('the_call_is_add_node', z3.BoolVal(ok_name)),
+                        ('the_node_is_the_id_of_the_record', ok_id), ('the_attributes_are_the_other_fields_of_the_record', ok_attrs)]
+            rec = c.lz(k)
+            args = dict(zip(['u', 'v', 't', 'e'], argv))
+            args.update(kwv)
+            u, v, t, e = args.get('u'), args.get('v'), args.get('t'), args.get('e', VNone)
+            return [('exactly_one_call_per_link_record', z3.BoolVal(True)), ('the_call_is_add_interaction', z3.BoolVal(name == 'add_interaction')),
+                    ('source_of_the_record', z3.BoolVal(False) if u is None or u.kind != 'node' else u.z == w.src(rec)),
+                    ('target_of_the_record', z3.BoolVal(False) if v is None or v.kind != 'node' else v.z == w.tgt(rec)),
+                    ('time_of_the_record', z3.BoolVal(False) if t is None or t.kind != 'int' else t.z == w.tm(rec)),
+                    ('no_vanishing_time', z3.BoolVal(e is None or e.kind == 'none'))]
+        return {0: LoopSpec(lambda L: judge(L, 'node'), modifies={}, tags=T11), 1: LoopSpec(lambda L: judge(L, 'link'), modifies={}, tags=T11)}
+
+    def finish(self, ctx, c, outcome):
+        if outcome[0] == 'raise':
+            return self.forbid(ctx, 'C11.rebuild.no_exception.%s' % outcome[1], tags=T11, note=outcome[2])
+        r = outcome[1]
+        if r.kind != 'graph':
+            return self.shape(ctx, 'C11.rebuild.returns_a_graph', tags=T11, note='result kind %s' % r.kind)
+        want = 'DynDiGraph' if self.flag == 'directed' else 'DynGraph'
+        ctx.oblige('C11.rebuild.class_follows_the_flag_recorded_in_the_data', z3.BoolVal(r.g.cls == want), tags=T11)
+        ctx.oblige('C11.rebuild.graph_attributes_are_those_of_the_data', r.g['GAttr'] == c.gattr.z, tags=T11)
+        ctx.oblige('C11.rebuild.no_call_outside_the_two_loops', z3.BoolVal(len(c.calls) == 0), tags=T11)
+
+    def search_real(self, engine):
+        cases = [([{'id': 1}, {'id': 2}], [{'source': 1, 'target': 2, 'time': 0}]),
+                 ([{'id': 1}, {'id': 2, 'c': 'x'}, {'id': 7}], [{'source': 2, 'target': 1, 'time': 3}, {'source': 2, 'target': 1, 'time': 4}]),
+                 ([{'id': 'a', 'w': 1}], []), ([], [])]
+        for nodes, links in cases:
+            v = run_nlg_case(self.flag, nodes, links)
+            if v:
+                return {'violated': v, 'call': 'node_link_graph({directed: %r, nodes: %r, links: %r}) with the graph methods replaced by recorders' % (self.flag == 'directed', nodes, links),
+                        'replayer': {'module': 'contracts.parsers', 'function': 'run_nlg_case', 'args': [self.flag, nodes, links]}}
+        return None
+
+
+def run_nlg_case(flag, nodes, links):
+    import dynetx as dn
+    from dynetx.readwrite.json_graph import node_link as NL
+    calls = []
+
+    def patched(G):
+        G.add_node = lambda n, **a: calls.append(('add_node', n, a))
+        G.add_interaction = lambda u, v, t=None, e=None: calls.append(('add_interaction', u, v, t, e))
+        G.to_directed = lambda: patched(dn.DynDiGraph())
+        return G
+    real = NL.dn.DynGraph
+    NL.dn.DynGraph = lambda *a, **k: patched(real(*a, **k))
+    try:
+        try:
+            H = NL.node_link_graph({'directed': flag == 'directed', 'graph': {'name': 'g'}, 'nodes': [dict(n) for n in nodes], 'links': [dict(l) for l in links]})
+        except Exception as ex:
+            return {'C11.rebuild.no_exception.%s' % type(ex).__name__: repr(ex)}
+    finally:
+        NL.dn.DynGraph = real
+    exp = [('add_node', n['id'], {k: v for k, v in n.items() if k != 'id'}) for n in nodes] + \
+          [('add_interaction', l['source'], l['target'], l['time'], None) for l in links]
+    out = {}
+    if calls != exp:
+        out['loop.step.exactly_one_call_per_record'] = 'calls %r, the records ask for %r' % (calls, exp)
+    if H.__class__.__name__ != ('DynDiGraph' if flag == 'directed' else 'DynGraph'):
+        out['C11.rebuild.class_follows_the_flag_recorded_in_the_data'] = H.__class__.__name__
+    if dict(H.graph) != {'name': 'g'}:
+        out['C11.rebuild.graph_attributes_are_those_of_the_data'] = repr(H.graph)
+    return out
